@@ -247,10 +247,12 @@ lyplg_type_sort_date_and_time(const struct ly_ctx *UNUSED(ctx), const struct lyd
     LYD_VALUE_GET(val1, v1);
     LYD_VALUE_GET(val2, v2);
 
-    /* compare timestamps */
+    /* compare timestamps, their difference may not fit into int */
     dt = difftime(v1->time, v2->time);
-    if (dt != 0) {
-        return dt;
+    if (dt < 0) {
+        return -1;
+    } else if (dt > 0) {
+        return 1;
     }
 
     /* compare second fractions */
